@@ -144,6 +144,7 @@ struct IrModel
     std::vector<IrUnits> units;
     std::vector<IrComponent> comps;
     std::vector<IrConnection> conns;
+    std::string hostile;      // "<slot kind>:<character class>" when GenOptions::hostileText placed a hostile string
 
     bool hasEncapsulation() const;
     int findComp(const std::string &name) const;
